@@ -25,6 +25,22 @@ Proof.
   rewrite <- zmem_In. destruct (zmem x l); split; intros; congruence.
 Qed.
 
+Definition list_eqb (a b : list Z) : bool :=
+  Nat.eqb (length a) (length b) && forallb (fun p => Z.eqb (fst p) (snd p)) (combine a b).
+
+Lemma list_eqb_eq a b : list_eqb a b = true -> a = b.
+Proof.
+  unfold list_eqb. revert b. induction a as [|x a IH]; intros [|y b]; simpl; try discriminate; auto.
+  intros H. apply andb_true_iff in H as [Hl H]. apply andb_true_iff in H as [Hx H].
+  apply Z.eqb_eq in Hx. subst. f_equal. apply IH. rewrite Hl. exact H.
+Qed.
+
+Lemma list_eqb_refl a : list_eqb a a = true.
+Proof.
+  unfold list_eqb. rewrite Nat.eqb_refl. simpl. induction a as [|x a IH]; simpl; [reflexivity|].
+  rewrite Z.eqb_refl. exact IH.
+Qed.
+
 Fixpoint zassoc {A} (k : Z) (l : list (Z * A)) : option A :=
   match l with
   | [] => None
